@@ -249,8 +249,9 @@ def recover(tree: ast.Module, src: str, rel: str, external_calls: set[str] | Non
     table = load_table().get(rel)
     if not table:
         return 0
-    from .normalize import desugar_match, eliminate_new_aliases, hoist_walrus, inline_new_helpers
-    n = desugar_match(tree) if "match " in src else 0
+    from .normalize import desugar_match, desugar_suppress, eliminate_new_aliases, hoist_walrus, inline_new_helpers
+    n = desugar_suppress(tree) if "suppress" in src else 0
+    n += desugar_match(tree) if "match " in src else 0
     n += hoist_walrus(tree) if ":=" in src else 0
     n += inline_new_helpers(tree, set(table), external_calls or set())
     scopes = _function_scopes(tree)
